@@ -951,7 +951,8 @@ Definition jwe_of_b64 (p k i c t : bytes) : res jwe_fields :=
    (23 object hdrtable)           ParseSigned, JSON (abstract object, see obj_of_sx)
                                   -> (0 payload ((prot sig alg nonce signing_input) ...)) | (1)
    (24 object hdrtable)           ParseEncrypted, JSON
-                                  -> (0 prot ((key alg enc) ...) iv ct tag aad_input) | (1)      *)
+                                  -> (0 prot ((key alg enc) ...) iv ct tag aad_input) | (1)
+   (30 (object ...) (op ...))     history on persistent objects, see hist_obs -> (0 result ...) *)
 (* abstract JSON objects in s-expression form (built by the harness with an independent
    encoding/json parse of the text): object = ((name value) ...), value = xSTRING | (1 header) |
    (2 (item ...)), header = ((name value) ...), item = ((name leaf) ...), leaf = xSTRING | (1 header);
@@ -1013,6 +1014,84 @@ Definition obs_jwe_json (r : res pjwe) : sx :=
   | Panic _ => s_panic
   end.
 
+(* ---- histories on objects ----
+   In the model a signed / encrypted object is a persistent value: Verify, Decrypt and the
+   serializers are functions of it and cannot change it, and the caller's slices (the payload /
+   aad passed in, a plaintext returned) are different values.  A history is a list of operations
+   on a few objects; the observation is the list of their results.  Running the same history on
+   the implementation exposes any aliasing between the object, the caller's slices and the
+   buffers of the primitives.
+   objects:  (0 prot payload sig)                      a signed object (one signature)
+             (1 prot key iv ct tag aad plaintext)      an encrypted object (one recipient; aad x = none)
+   ops (code objindex):
+     1 CompactSerialize                 -> (1 text)
+     2 FullSerialize                    -> (2 member64 ...)   protected payload signature | protected encrypted_key iv ciphertext tag aad
+     3 Verify/Decrypt, right key        -> (3 0 payload)
+     4 Verify/Decrypt, wrong key        -> (4 1)
+     5 CompactSerialize, parse, right key -> (5 0 payload) | (5 1) when the object has aad (compact has no aad member)
+     6 FullSerialize, parse, right key  -> (6 0 payload)
+     7 caller overwrites the payload slice it passed in      -> (7)
+     8 caller overwrites the aad slice it passed in          -> (8)
+     9 caller overwrites the plaintext last returned to it   -> (9)
+     10 parse once, right key twice     -> (10 0 payload 0 payload)
+     11 parse once, wrong key then right key -> (11 1 0 payload)
+   With idealised primitives the right key returns the payload and a wrong key an error. *)
+Inductive hobj :=
+| HJws (o : jws_fields)
+| HJwe (o : jwe_fields) (aad : bytes) (pt : bytes).
+
+Definition hobj_of_sx (v : sx) : option hobj :=
+  match v with
+  | SL [SZ 0; SB p; SB l; SB s] => Some (HJws {| js_prot := p; js_payload := l; js_sig := s |})
+  | SL [SZ 1; SB p; SB k; SB i; SB c; SB t; SB a; SB pt] =>
+      Some (HJwe {| je_prot := p; je_key := k; je_iv := i; je_ct := c; je_tag := t |} a pt)
+  | _ => None
+  end.
+Fixpoint hobjs_of_sx (l : list sx) : list hobj :=
+  match l with
+  | v :: t => match hobj_of_sx v with Some o => o :: hobjs_of_sx t | None => hobjs_of_sx t end
+  | [] => []
+  end.
+
+Definition hobj_payload (o : hobj) : bytes := match o with HJws j => js_payload j | HJwe _ _ pt => pt end.
+Definition hobj_has_aad (o : hobj) : bool := match o with HJws _ => false | HJwe _ a _ => negb (is_nil a) end.
+Definition hobj_compact (o : hobj) : bytes := match o with HJws j => jws_compact j | HJwe e _ _ => jwe_compact e end.
+Definition hobj_members (o : hobj) : list sx :=
+  match o with
+  | HJws j => [SB (b64url_encode (js_prot j)); SB (b64url_encode (js_payload j)); SB (b64url_encode (js_sig j))]
+  | HJwe e a _ => [SB (b64url_encode (je_prot e)); SB (b64url_encode (je_key e)); SB (b64url_encode (je_iv e));
+                   SB (b64url_encode (je_ct e)); SB (b64url_encode (je_tag e)); SB (b64url_encode a)]
+  end.
+
+Definition hist_obs (o : hobj) (code : Z) : sx :=
+  let ok := [SZ 0; SB (hobj_payload o)] in
+  if Z.eqb code 1 then SL [SZ 1; SB (hobj_compact o)]
+  else if Z.eqb code 2 then SL (SZ 2 :: hobj_members o)
+  else if Z.eqb code 3 then SL (SZ 3 :: ok)
+  else if Z.eqb code 4 then SL [SZ 4; SZ 1]
+  else if Z.eqb code 5 then (if hobj_has_aad o then SL [SZ 5; SZ 1] else SL (SZ 5 :: ok))
+  else if Z.eqb code 6 then SL (SZ 6 :: ok)
+  else if Z.eqb code 10 then SL (SZ 10 :: ok ++ ok)
+  else if Z.eqb code 11 then SL (SZ 11 :: SZ 1 :: ok)
+  else SL [SZ code].
+
+(* one operation: the objects are returned unchanged, whatever the operation *)
+Definition hist_step (objs : list hobj) (op : sx) : list hobj * sx :=
+  match op with
+  | SL [SZ code; SZ idx] =>
+      match nth_error objs (Z.to_nat idx) with
+      | Some o => (objs, hist_obs o code)
+      | None => (objs, bad_case)
+      end
+  | _ => (objs, bad_case)
+  end.
+
+Fixpoint hist_run (objs : list hobj) (ops : list sx) : list sx :=
+  match ops with
+  | [] => []
+  | op :: rest => let '(objs', r) := hist_step objs op in r :: hist_run objs' rest
+  end.
+
 Definition keykind_of_z (z : Z) : keykind :=
   if Z.eqb z 0 then KSym else if Z.eqb z 1 then KRsa else KEc (z2n z).
 
@@ -1062,6 +1141,7 @@ Definition run_c16 (c : sx) : sx :=
       obs_jws_json (parse_jws_full (hdr_dec_tab (hdrtab_of_sx tab)) (obj_of_sx o))
   | SL (SZ 24 :: SL o :: SL tab :: _) =>
       obs_jwe_json (parse_jwe_full (hdr_dec_tab (hdrtab_of_sx tab)) (obj_of_sx o))
+  | SL (SZ 30 :: SL objs :: SL ops :: _) => SL (SZ 0 :: hist_run (hobjs_of_sx objs) ops)
   | SL (SZ 19 :: SB iv :: SZ ns :: _) =>
       obs_res (let* _ := aead_decrypt (z2n ns) (fun _ _ _ => Ok []) iv [] [] [] in Ok [])
   | _ => bad_case
